@@ -129,7 +129,6 @@ NOT_APPLICABLE = []
 UNCLAIMED = {
     "C13": "not claimed: the engine (seeded scheduler over the real flock/unlink calls of fs/os_unix.go) is not built; the technique applies (DESIGN.md 4/C13, 11)",
     "C14": "not claimed: the aliasing/poison personality exists in SimFS but the snapshot oracle over retained slices is not validated as a check of its own, and the real-mmap part is not built (DESIGN.md 4/C14, 11)",
-    "C15": "not claimed: no check of its own (file-set / handle accounting over long compaction cycles not built); two C15 defects were found and repaired through C01's engine (known_findings.json F07, F08)",
     "C17": "not claimed: needs the uninstrumented real-file-system build of the harness (fs.Mem / fs.OS / fs.OSMMap differential), which is not built (DESIGN.md 4/C17, 11)",
     "C18": "not claimed: the golden image corpus written by the pinned build is not built; the decoder invariant half runs inside C01-C06 but is not a check of C18 (DESIGN.md 4/C18, 11)",
 }
@@ -230,3 +229,21 @@ TEXT["C11"] = _t("sim+harness", "deterministic simulation: scans interleaved ite
 TEXT["C12"] = _t("sim+harness", "deterministic simulation: Backup task vs one writer and compaction under the seeded scheduler, short-read fault personality; opened backup compared with prefixes of the writer's log",
                  "Seeded search over interleavings of one Backup with concurrent writes that roll the log over and with compaction; the backup must be a prefix-consistent point-in-time copy and must not touch the source.",
                  "Schedules sampled.", "DESIGN.md 4/C12")
+
+PROPS["C15"] = dict(
+    level="exploration",
+    runs=dict(quick=2400, thorough=30000), budget_s=dict(quick=170, thorough=1700),
+    rule="one run = one seeded steady overwrite/delete workload over a fixed key universe (3-90 keys, colliding families) in 6-25 cycles (thorough 10-70): writes, optionally a purge of every key, Compact, then a random subset of Sync/Put/Delete/Backup/Close+Open/Compact; "
+         "one evaluation = one Compact call audited at the file-system seam: number of segment files gone == CompactedSegments, no side file without its segment, every file of the directory is a live segment / its side file / index / metadata / lock, "
+         "open handles == live segments + 2 index files (0 after Close), segment bytes <= 1.5 x live record bytes / (1 - fragmentation threshold) + 2 segments + 2 KiB, index bytes <= 512 x (6 + max keys ever live / 6); "
+         "the audit of directory, handles and index size runs after every API call; every call must return nil, every Backup is opened and compared with the model; "
+         "distinct_nontrivial = distinct (model, segment bytes) states after compactions",
+    real=REAL_SEQ, stub=STUB_SEQ,
+    assumptions=["sequential histories with clean restarts only (the property's quantifier); descriptors and mappings are the handle table of the simulated disk - real /proc/self/fd and /proc/self/maps counts on fs.OSMMap are taken by the C17 engine's runs",
+                 "the byte bounds are deliberately loose (measured peak: 0.57 of the segment bound, 0.59 of the index bound): they separate 'bounded by live data' from 'grows with history', they do not pin the compaction policy"],
+    must_reach=dict(quick=["compaction_cycles", "compaction_removed_every_segment", "backup_verified", "clean_reopen", "segment_removed", "overflow_bucket_allocated"],
+                    thorough=["compaction_removed_every_segment"]),
+)
+TEXT["C15"] = _t("harness", "deterministic simulation (fault-free configuration): long seeded compaction cycles on the simulated disk, directory / handle-table / size audit at the file-system seam after every call",
+                 "Seeded long-running overwrite/delete/compact/restart cycles; after every call the simulated disk's directory and handle table are audited against the allowed file set and size bounds derived from the live data; post-compaction usability (Sync, Put, Delete, Backup, Close) exercised incl. compaction that removes every segment.",
+                 "Sampling of histories and thresholds; sequential only. Real descriptors/mappings are not observed here.", "DESIGN.md 4/C15, 11")
